@@ -72,10 +72,17 @@ impl Instrument for StageProbe {
 }
 
 pub fn gen_batch_case(check: &str, seed: u64, family: &str, tier: Tier, with_file: bool) -> Case {
+    if family == "energy" {
+        // vehicles with shared prediction caches: the batch must equal the isolated, cache-less runs
+        let mut c = super::c08::gen_case(seed, "schedule", tier);
+        c.check = check.to_string();
+        c.family = family.to_string();
+        return c;
+    }
     let mut r = Rng::new(seed ^ fnv64(check));
     let mut w = World::gen_graph(&mut r, &graph_params(tier));
     gen_traversal(&mut r, &mut w);
-    gen_algorithm(&mut r, &mut w, false);
+    gen_algorithm(&mut r, &mut w, true, false);
     gen_termination(&mut r, &mut w);
     let pc = gen_plugins(&mut r, &mut w);
     w.parallelism = r.range(1, 16) as usize;
@@ -299,7 +306,7 @@ impl Check for C06 {
         "C06"
     }
     fn families(&self, _tier: Tier) -> Vec<&'static str> {
-        vec!["schedule", "schedule", "faults"]
+        vec!["schedule", "schedule", "faults", "schedule", "energy", "schedule", "faults"]
     }
     fn default_runs(&self, tier: Tier) -> u64 {
         match tier {
